@@ -54,8 +54,8 @@ impl<'a> Pp<'a> {
         &&& self.context.sink().wf()
         &&& self.context.sink().kind() == self.mode
         &&& self.context.line_budget_ok()
-        // a directive always carries its first argument (Directive::fmt indexes args[0])
-        &&& (self.cur_directive is Some ==> self.cur_directive->Some_0.args@.len() >= 1)
+        // the open directive has its first argument, and more than one only if its kind is multi-line
+        &&& (self.cur_directive is Some ==> dargs_ok(&self.cur_directive->Some_0))
         // the line that ended a directive is only kept while no directive is open
         &&& (self.execute_tail_line is Some ==> self.cur_directive is None)
         // the tag store's representation invariant (C14: stored names pairwise prefix-free), see spec/tags_wf.rs
